@@ -13,7 +13,7 @@ open Sm MH
 
 /-! ### the parser -/
 
-theorem foldItems_error {items : List (List Char)} {st : Option Mol × Params} {e : PErr}
+theorem foldItems_error {items : List (List Char)} {st : Option Mol × Params} {e : Reason}
     (h : foldItems items st = .error e) : ∃ item ∈ items, ∃ st', stepItem st' item = .error e := by
   induction items generalizing st with
   | nil => simp [foldItems] at h
@@ -30,87 +30,195 @@ theorem foldItems_error {items : List (List Char)} {st : Option Mol × Params} {
       obtain ⟨it, hm, st'', h'⟩ := ih h
       exact ⟨it, List.mem_cons_of_mem _ hm, st'', h'⟩
 
-theorem stepItem_error_class {st : Option Mol × Params} {item : List Char} {e : PErr}
-    (h : stepItem st item = .error e) (hne : e ≠ .value) :
-    ∃ n : Int,
-      (("num".toList.isPrefixOf item ∧ pyInt? (item.drop 4) = some n ∧ n < 0 ∧ e = .argType) ∨
-       ("scaled".toList.isPrefixOf item ∧ pyInt? (item.drop 7) = some n ∧
-          ((n < 0 ∧ e = .argType) ∨ (floatOfNat n.natAbs = none ∧ e = .overflow)))) := by
-  unfold stepItem at h
-  simp only [] at h
-  have val : ∀ {α} (x : Except PErr α), x = .error .value → x = .error e → False := by
-    intro α x h1 h2
-    rw [h1] at h2
-    injection h2 with h2
-    exact hne h2.symm
-  by_cases c1 : item = "abund".toList
-  · rw [if_pos c1] at h; cases h
-  rw [if_neg c1] at h
-  by_cases c2 : item = "noabund".toList
-  · rw [if_pos c2] at h; cases h
-  rw [if_neg c2] at h
-  by_cases c3 : "k".toList.isPrefixOf item = true
-  · rw [if_pos c3] at h
-    split at h
-    · exact (val _ rfl h).elim
-    · split at h
-      · cases h
-      · exact (val _ rfl h).elim
-  rw [if_neg c3] at h
-  by_cases c4 : "num".toList.isPrefixOf item = true
-  · rw [if_pos c4] at h
-    split at h
-    · exact (val _ rfl h).elim
-    · split at h
-      · exact (val _ rfl h).elim
-      · split at h
-        · exact (val _ rfl h).elim
-        · rename_i n hn
-          split at h
-          · rename_i hneg
-            injection h with h
-            exact ⟨n, Or.inl ⟨c4, hn, hneg, h.symm⟩⟩
-          · cases h
-  rw [if_neg c4] at h
-  by_cases c5 : "scaled".toList.isPrefixOf item = true
-  · rw [if_pos c5] at h
-    split at h
-    · exact (val _ rfl h).elim
-    · split at h
-      · exact (val _ rfl h).elim
-      · split at h
-        · exact (val _ rfl h).elim
-        · rename_i n hn
-          split at h
-          · rename_i hf
-            injection h with h
-            exact ⟨n, Or.inr ⟨c5, hn, Or.inr ⟨hf, h.symm⟩⟩⟩
-          · split at h
-            · rename_i hneg
-              injection h with h
-              exact ⟨n, Or.inr ⟨c5, hn, Or.inl ⟨hneg, h.symm⟩⟩⟩
-            · cases h
-  rw [if_neg c5] at h
-  by_cases c6 : "seed".toList.isPrefixOf item = true
-  · rw [if_pos c6] at h
-    split at h
-    · exact (val _ rfl h).elim
-    · split at h
-      · cases h
-      · exact (val _ rfl h).elim
-  rw [if_neg c6] at h
-  split at h
-  · cases h
-  · exact (val _ rfl h).elim
+/-! ### every refusal, with its reason -/
 
-theorem parse_error_class (s : List Char) (e : PErr) (h : parseParamsStr s = .error e)
-    (hne : e ≠ .value) :
-    ∃ item ∈ splitOn ',' s, ∃ n : Int,
-      (("num".toList.isPrefixOf item ∧ pyInt? (item.drop 4) = some n ∧ n < 0 ∧ e = .argType) ∨
-       ("scaled".toList.isPrefixOf item ∧ pyInt? (item.drop 7) = some n ∧
-          ((n < 0 ∧ e = .argType) ∨ (floatOfNat n.natAbs = none ∧ e = .overflow)))) := by
-  obtain ⟨item, hm, st', h'⟩ := foldItems_error h
-  exact ⟨item, hm, stepItem_error_class h' hne⟩
+def startsK (item : List Char) : Prop := "k".toList.isPrefixOf item = true
+def startsNum (item : List Char) : Prop := "num".toList.isPrefixOf item = true
+def startsScaled (item : List Char) : Prop := "scaled".toList.isPrefixOf item = true
+def startsSeed (item : List Char) : Prop := "seed".toList.isPrefixOf item = true
+def isFlag (item : List Char) : Prop := item = "abund".toList ∨ item = "noabund".toList
+
+/-- the declarative reading of the refusals of one item, given what the earlier items of the same
+string have set (`st`): which category the item falls in (the first of: flag, `k…`, `num…`,
+`scaled…`, `seed…`, molecule word), and what is wrong with it -/
+def Refused (st : Option Mol × Params) (item : List Char) : Reason → Prop
+  | .kNoParam => ¬ isFlag item ∧ startsK item ∧ (item.length < 3 ∨ item[1]? ≠ some '=')
+  | .kNotInt => ¬ isFlag item ∧ startsK item ∧ ¬ (item.length < 3 ∨ item[1]? ≠ some '=') ∧
+      pyInt? (item.drop 2) = none
+  | .numNoParam => ¬ isFlag item ∧ ¬ startsK item ∧ startsNum item ∧
+      (item.length < 5 ∨ item[3]? ≠ some '=')
+  | .numAfterScaled => ¬ isFlag item ∧ ¬ startsK item ∧ startsNum item ∧
+      ¬ (item.length < 5 ∨ item[3]? ≠ some '=') ∧ truthy st.2.scaled = true
+  | .numNotInt => ¬ isFlag item ∧ ¬ startsK item ∧ startsNum item ∧
+      ¬ (item.length < 5 ∨ item[3]? ≠ some '=') ∧ truthy st.2.scaled = false ∧
+      pyInt? (item.drop 4) = none
+  | .numNegative => ¬ isFlag item ∧ ¬ startsK item ∧ startsNum item ∧
+      ¬ (item.length < 5 ∨ item[3]? ≠ some '=') ∧ truthy st.2.scaled = false ∧
+      ∃ n, pyInt? (item.drop 4) = some n ∧ n < 0
+  | .scaledNoParam => ¬ isFlag item ∧ ¬ startsK item ∧ ¬ startsNum item ∧ startsScaled item ∧
+      (item.length < 8 ∨ item[6]? ≠ some '=')
+  | .scaledAfterNum => ¬ isFlag item ∧ ¬ startsK item ∧ ¬ startsNum item ∧ startsScaled item ∧
+      ¬ (item.length < 8 ∨ item[6]? ≠ some '=') ∧ truthy st.2.num = true
+  | .scaledNotInt => ¬ isFlag item ∧ ¬ startsK item ∧ ¬ startsNum item ∧ startsScaled item ∧
+      ¬ (item.length < 8 ∨ item[6]? ≠ some '=') ∧ truthy st.2.num = false ∧
+      pyInt? (item.drop 7) = none
+  | .scaledTooBig => ¬ isFlag item ∧ ¬ startsK item ∧ ¬ startsNum item ∧ startsScaled item ∧
+      ¬ (item.length < 8 ∨ item[6]? ≠ some '=') ∧ truthy st.2.num = false ∧
+      ∃ n, pyInt? (item.drop 7) = some n ∧ floatOfNat n.natAbs = none
+  | .scaledNegative => ¬ isFlag item ∧ ¬ startsK item ∧ ¬ startsNum item ∧ startsScaled item ∧
+      ¬ (item.length < 8 ∨ item[6]? ≠ some '=') ∧ truthy st.2.num = false ∧
+      ∃ n, pyInt? (item.drop 7) = some n ∧ (∃ f, floatOfNat n.natAbs = some f) ∧ n < 0
+  | .seedNoParam => ¬ isFlag item ∧ ¬ startsK item ∧ ¬ startsNum item ∧ ¬ startsScaled item ∧
+      startsSeed item ∧ (item.length < 6 ∨ item[4]? ≠ some '=')
+  | .seedNotInt => ¬ isFlag item ∧ ¬ startsK item ∧ ¬ startsNum item ∧ ¬ startsScaled item ∧
+      startsSeed item ∧ ¬ (item.length < 6 ∨ item[4]? ≠ some '=') ∧ pyInt? (item.drop 5) = none
+  | .unknownItem => ¬ isFlag item ∧ ¬ startsK item ∧ ¬ startsNum item ∧ ¬ startsScaled item ∧
+      ¬ startsSeed item ∧ molOfItem item = none
+  | _ => False
+
+theorem stepItem_error_iff (st : Option Mol × Params) (item : List Char) (r : Reason) :
+    stepItem st item = .error r ↔ Refused st item r := by
+  unfold stepItem
+  simp only []
+  by_cases c1 : item = "abund".toList
+  · rw [if_pos c1]
+    cases r <;> simp [Refused, isFlag, c1]
+  rw [if_neg c1]
+  by_cases c2 : item = "noabund".toList
+  · rw [if_pos c2]
+    cases r <;> simp [Refused, isFlag, c2]
+  rw [if_neg c2]
+  have hf : ¬ isFlag item := by rintro (h | h) <;> contradiction
+  by_cases c3 : "k".toList.isPrefixOf item = true
+  · rw [if_pos c3]
+    have k3 : startsK item := c3
+    by_cases d : item.length < 3 ∨ item[1]? ≠ some '='
+    · rw [if_pos d]
+      cases r <;> simp [Refused, hf, k3, d]
+    · rw [if_neg d]
+      cases hp : pyInt? (item.drop 2) with
+      | none => cases r <;> simp [Refused, hf, k3, d, hp]
+      | some n => cases r <;> simp [Refused, hf, k3, d, hp]
+  rw [if_neg c3]
+  have k3 : ¬ startsK item := c3
+  by_cases c4 : "num".toList.isPrefixOf item = true
+  · rw [if_pos c4]
+    have k4 : startsNum item := c4
+    by_cases d : item.length < 5 ∨ item[3]? ≠ some '='
+    · rw [if_pos d]
+      cases r <;> simp [Refused, hf, k3, k4, d]
+    · rw [if_neg d]
+      cases ht : truthy st.2.scaled with
+      | true =>
+        simp only [if_true]
+        cases r <;> simp [Refused, hf, k3, k4, d, ht]
+      | false =>
+        simp only [Bool.false_eq_true, if_false]
+        cases hp : pyInt? (item.drop 4) with
+        | none => cases r <;> simp [Refused, hf, k3, k4, d, ht, hp]
+        | some n =>
+          simp only []
+          by_cases hn : n < 0
+          · rw [if_pos hn]
+            cases r <;> simp [Refused, hf, k3, k4, d, ht, hp, hn]
+          · rw [if_neg hn]
+            cases r <;> simp [Refused, hf, k3, k4, d, ht, hp, hn]
+  rw [if_neg c4]
+  have k4 : ¬ startsNum item := c4
+  by_cases c5 : "scaled".toList.isPrefixOf item = true
+  · rw [if_pos c5]
+    have k5 : startsScaled item := c5
+    by_cases d : item.length < 8 ∨ item[6]? ≠ some '='
+    · rw [if_pos d]
+      cases r <;> simp [Refused, hf, k3, k4, k5, d]
+    · rw [if_neg d]
+      cases ht : truthy st.2.num with
+      | true =>
+        simp only [if_true]
+        cases r <;> simp [Refused, hf, k3, k4, k5, d, ht]
+      | false =>
+        simp only [Bool.false_eq_true, if_false]
+        cases hp : pyInt? (item.drop 7) with
+        | none => cases r <;> simp [Refused, hf, k3, k4, k5, d, ht, hp]
+        | some n =>
+          simp only []
+          cases hfl : floatOfNat n.natAbs with
+          | none =>
+            cases r <;> simp [Refused, hf, k3, k4, k5, d, ht, hp, hfl]
+          | some f =>
+            simp only []
+            by_cases hn : n < 0
+            · rw [if_pos hn]
+              cases r <;> simp [Refused, hf, k3, k4, k5, d, ht, hp, hfl, hn]
+            · rw [if_neg hn]
+              cases r <;> simp [Refused, hf, k3, k4, k5, d, ht, hp, hfl, hn]
+  rw [if_neg c5]
+  have k5 : ¬ startsScaled item := c5
+  by_cases c6 : "seed".toList.isPrefixOf item = true
+  · rw [if_pos c6]
+    have k6 : startsSeed item := c6
+    by_cases d : item.length < 6 ∨ item[4]? ≠ some '='
+    · rw [if_pos d]
+      cases r <;> simp [Refused, hf, k3, k4, k5, k6, d]
+    · rw [if_neg d]
+      cases hp : pyInt? (item.drop 5) with
+      | none => cases r <;> simp [Refused, hf, k3, k4, k5, k6, d, hp]
+      | some n => cases r <;> simp [Refused, hf, k3, k4, k5, k6, d, hp]
+  rw [if_neg c6]
+  have k6 : ¬ startsSeed item := c6
+  cases hm : molOfItem item with
+  | none => cases r <;> simp [Refused, hf, k3, k4, k5, k6, hm]
+  | some m => cases r <;> simp [Refused, hf, k3, k4, k5, k6, hm]
+
+/-- a refused string has a first refused item, and every item before it was accepted -/
+theorem parse_error_iff (s : List Char) (r : Reason) :
+    parseParamsStr s = .error r ↔
+      ∃ pre item post st, splitOn ',' s = pre ++ item :: post ∧
+        foldItems pre (none, {}) = .ok st ∧ Refused st item r := by
+  unfold parseParamsStr
+  generalize splitOn ',' s = items
+  generalize ((none, {}) : Option Mol × Params) = st0
+  induction items generalizing st0 with
+  | nil =>
+    simp only [foldItems]
+    constructor
+    · intro h; cases h
+    · rintro ⟨pre, item, post, st, h, _⟩
+      cases pre <;> simp at h
+  | cons it rest ih =>
+    constructor
+    · intro h
+      unfold foldItems at h
+      cases hs : stepItem st0 it with
+      | error e =>
+        rw [hs] at h
+        injection h with h
+        subst h
+        exact ⟨[], it, rest, st0, rfl, rfl, (stepItem_error_iff st0 it e).1 hs⟩
+      | ok st1 =>
+        rw [hs] at h
+        obtain ⟨pre, item, post, st, h1, h2, h3⟩ := (ih st1).1 h
+        refine ⟨it :: pre, item, post, st, by rw [h1]; rfl, ?_, h3⟩
+        unfold foldItems
+        rw [hs]; exact h2
+    · rintro ⟨pre, item, post, st, h1, h2, h3⟩
+      cases pre with
+      | nil =>
+        simp only [List.nil_append, List.cons.injEq] at h1
+        obtain ⟨rfl, rfl⟩ := h1
+        simp only [foldItems, Except.ok.injEq] at h2
+        subst h2
+        unfold foldItems
+        rw [(stepItem_error_iff _ _ _).2 h3]
+      | cons p pre =>
+        simp only [List.cons_append, List.cons.injEq] at h1
+        obtain ⟨rfl, h1⟩ := h1
+        unfold foldItems at h2 ⊢
+        cases hs : stepItem st0 it with
+        | error e => rw [hs] at h2; cases h2
+        | ok st1 =>
+          rw [hs] at h2
+          exact (ih st1).2 ⟨pre, item, post, st, h1, h2, h3⟩
 
 /-- not both a num and a scaled; one is set exactly when the other is -/
 def NS (p : Params) : Prop :=
@@ -265,7 +373,7 @@ theorem template_abs (p : CP) (k : Nat) (m : Mol) :
 
 /-! ### the factory -/
 
-theorem mapM'_mem {α β} {f : α → Except PErr β} {l : List α} {r : List β} (h : mapM' f l = .ok r) :
+theorem mapM'_mem {α β} {f : α → Except Reason β} {l : List α} {r : List β} (h : mapM' f l = .ok r) :
     ∀ y ∈ r, ∃ x ∈ l, f x = .ok y := by
   induction l generalizing r with
   | nil =>
@@ -368,14 +476,14 @@ theorem computeParamsOf_excl {split : Bool} {mp : Mol × Params} {cs : List CP} 
       rw [this.1, this.2]; exact hr
 
 theorem factoryInit_go_NS {ps : List (List Char)} {d : Option Mol} {pl : List (Mol × Params)}
-    (h : factoryInit.go ps d = .ok pl) : pl.length = ps.length ∧ ∀ mp ∈ pl, NS mp.2 := by
+    (h : factoryInitCore.go ps d = .ok pl) : pl.length = ps.length ∧ ∀ mp ∈ pl, NS mp.2 := by
   induction ps generalizing pl with
   | nil =>
-    simp only [factoryInit.go, Except.ok.injEq] at h
+    simp only [factoryInitCore.go, Except.ok.injEq] at h
     subst h
     exact ⟨rfl, fun _ hm => by cases hm⟩
   | cons s rest ih =>
-    unfold factoryInit.go at h
+    unfold factoryInitCore.go at h
     cases hp : parseParamsStr s with
     | error e => rw [hp] at h; cases h
     | ok r =>
@@ -385,7 +493,7 @@ theorem factoryInit_go_NS {ps : List (List Char)} {d : Option Mol} {pl : List (M
       split at h
       · cases h
       · rename_i m hm
-        cases hg : factoryInit.go rest d with
+        cases hg : factoryInitCore.go rest d with
         | error e => rw [hg] at h; cases h
         | ok l =>
           rw [hg] at h
@@ -398,14 +506,26 @@ theorem factoryInit_go_NS {ps : List (List Char)} {d : Option Mol} {pl : List (M
           · exact parse_NS hp
           · exact this.2 mp hmp
 
-theorem factoryInit_NS {ps : List (List Char)} {d : Option Mol} {pl : List (Mol × Params)}
-    (h : factoryInit ps d = .ok pl) : pl.length = max 1 ps.length ∧ ∀ mp ∈ pl, NS mp.2 := by
+theorem factoryInit_core {ps : List (List Char)} {d : Option Mol} {pl : List (Mol × Params)}
+    (h : factoryInit ps d = .ok pl) : factoryInitCore ps d = .ok pl := by
+  unfold factoryInit at h
+  cases hc : factoryInitCore ps d with
+  | error e => rw [hc] at h; cases h
+  | ok pl' =>
+    rw [hc] at h
+    simp only [] at h
+    split at h
+    · cases h
+    · exact h
+
+theorem factoryInitCore_NS {ps : List (List Char)} {d : Option Mol} {pl : List (Mol × Params)}
+    (h : factoryInitCore ps d = .ok pl) : pl.length = max 1 ps.length ∧ ∀ mp ∈ pl, NS mp.2 := by
   cases ps with
   | nil =>
     cases d with
-    | none => simp [factoryInit] at h
+    | none => simp [factoryInitCore] at h
     | some d =>
-      simp only [factoryInit, Except.ok.injEq] at h
+      simp only [factoryInitCore, Except.ok.injEq] at h
       subst h
       refine ⟨rfl, ?_⟩
       intro mp hmp
@@ -413,13 +533,17 @@ theorem factoryInit_NS {ps : List (List Char)} {d : Option Mol} {pl : List (Mol 
       subst hmp
       exact NS_default
   | cons s rest =>
-    have h' : factoryInit.go (s :: rest) d = .ok pl := by
+    have h' : factoryInitCore.go (s :: rest) d = .ok pl := by
       cases d <;> exact h
     have := factoryInit_go_NS h'
     refine ⟨?_, this.2⟩
     rw [this.1]
     simp only [List.length_cons]
     omega
+
+theorem factoryInit_NS {ps : List (List Char)} {d : Option Mol} {pl : List (Mol × Params)}
+    (h : factoryInit ps d = .ok pl) : pl.length = max 1 ps.length ∧ ∀ mp ∈ pl, NS mp.2 :=
+  factoryInitCore_NS (factoryInit_core h)
 
 theorem mapM'_single_length {l : List (Mol × Params)} {r : List (List CP)}
     (h : mapM' (computeParamsOf false) l = .ok r) : r.flatten.length = l.length := by
